@@ -24,6 +24,8 @@ def op_to_labels(op):
     k = f[0]
     if k == "OPEN":
         return "[LConnect %s]" % f[1]
+    if k == "RESTART":
+        return "[LRestart]"
     c = f[1]
     if k == "DROP":
         return "[LSocketLoss %s]" % c
